@@ -19,12 +19,17 @@ def gen_population(rng, small):
     size = rng.randrange(0, 9 if small else 31)
     mode = rng.random()
     grid = list(range(0, rng.choice([2, 3, 5, 8])))
+    offs = [rng.choice([1e6, float(2 ** 40), -1e9, 1e3, 0.0]) for _ in range(n)]
+    steps = [rng.choice([1e-4, 1.0, 2.0 ** -10, 1e-3]) for _ in range(n)]
     sols = []
     for _ in range(size):
         if sols and rng.random() < 0.15:
             objs = list(rng.choice(sols).objectives)          # duplicate objective vector (another object)
-        elif mode < 0.7:
+        elif mode < 0.6:
             objs = [float(rng.choice(grid)) for _ in range(n)]
+        elif mode < 0.75:
+            # a front far from the origin whose spread is tiny relative to its magnitude (still far above EPSILON)
+            objs = [offs[j] + rng.choice(grid) * steps[j] for j in range(n)]
         else:
             objs = [rng.uniform(-1, 1) * 10 ** rng.randrange(-2, 3) if rng.random() < 0.9 else rng.choice([0.0, -0.0, 1e-320, 1e300]) for _ in range(n)]
         cv = float(rng.choice([0, 0, 0, 1, 1, 2])) if constrained else 0.0
